@@ -71,12 +71,18 @@ theorem firstImportRule_mem {rules : List Rule} {names : List Str} {r : Rule}
   simpa [List.any_eq_true] using this
 
 /-- The event produced by a check that returns a plain raw finding in a nosec-free context. -/
+theorem fillId_named {c : Check} {raw : Raw} (h : raw.id ≠ []) : fillId c raw = raw := by
+  unfold fillId
+  cases hr : raw.id with
+  | nil => exact absurd hr h
+  | cons a as => simp
+
 theorem runCheck_plain {nm : NosecMap} {env : Env} {c : Check} {raw : Raw} {l col : Nat}
-    (hrun : c.run env = .ok (some raw))
+    (hrun : c.run env = .ok (some raw)) (hid : raw.id ≠ [])
     (hn : NoNosecOn nm env.ctx.linerange) (hraw : raw.lineno = none) (hcol : raw.col = none)
     (hl : env.ctx.lineno = some l) (hc : env.ctx.col = some col) :
     runCheck nm env c = [.finding ⟨raw.id, raw.sev, raw.conf, l, env.ctx.linerange, col⟩] := by
-  simp [runCheck, hrun, emit_plain hn hraw hcol hl hc]
+  simp [runCheck, hrun, fillId_named hid, emit_plain hn hraw hcol hl hc]
 
 theorem mem_runVisit {checks : List Check} {nm : NosecMap} {lines : List Str} {s : VState} {v : Visit}
     {kind : Str} {ctx : Ctx} {c : Check} {e : Event}
